@@ -7,9 +7,11 @@ package iavl
 import (
 	"bytes"
 	"crypto/sha256"
+
+	"github.com/cosmos/iavl/fastnode"
 )
 
-const vMaxPool = 8
+const vMaxPool = 18
 
 // ---------------------------------------------------------------- key pool
 
@@ -23,7 +25,7 @@ type vPool struct {
 func vNewPool(n int, lens []int) *vPool {
 	p := &vPool{n: n}
 	for i := 0; i < n; i++ {
-		p.keys[i] = vKeyOfLen("k"+string(rune('0'+i)), lens[i])
+		p.keys[i] = vKeyOfLen("k"+string(rune('a'+i)), lens[i])
 	}
 	vOrdered(p.keys[:n])
 	return p
@@ -141,7 +143,11 @@ func (m *vModel) equal(o *vModel, n int) bool {
 
 // vNewValue returns a fresh symbolic value: empty or one symbolic byte (or long).
 func vNewValue(tag string, variants int) []byte {
-	switch vChoice(tag+"len", variants) {
+	c := 0
+	if variants > 1 {
+		c = vChoice(tag+"len", variants)
+	}
+	switch c {
 	case 0:
 		return vBytes(tag, 1)
 	case 1:
@@ -451,3 +457,7 @@ func vAuditFreeKey(t vReader, p *vPool, m *vModel, kq []byte, tag string) {
 }
 
 var _ = bytes.Compare
+
+func fastnodeNew(key, value []byte, version int64) *fastnode.Node {
+	return fastnode.NewNode(key, value, version)
+}
